@@ -8,11 +8,14 @@ TRUSTED = [
     "harness/translate_rd.py (RDPy translator; runtime primitives Model/RDPy.lean) RE-TRANSLATES from /repo's relativedelta.py "
     "into Generated/RDOps.lean on every run: __add__ (three Lean functions: date/datetime, relativedelta and timedelta "
     "operand - isinstance on the declared operand type is decided statically), __radd__, __rsub__, __neg__, __abs__, __sub__, "
-    "__mul__ (integer scalar; float() / int() are the identity on the integer domain), __bool__, __eq__, __hash__ (the tuple), "
+    "__mul__ (integer scalar; float() / int() are the identity on the integer domain; and a second translation for a DYADIC float "
+    "factor m/2^k: int(field * f) = the quotient field*m / 2^k truncated toward zero), __div__ (divisor +-2^k: 1/float(other) is exact), "
+    "normalized() (integer fields: round / int are the identity, every remainder is 0), __bool__, __eq__, __hash__ (the tuple), "
     "and both branches of __init__ (keyword constructor incl. the unrolled ydayidx scan and the weekday coercion; "
     "relativedelta(dt1, dt2) incl. the while loop as a fuel-bounded recursion); _fix / _set_months as before "
     "(translate.py). Anything outside the fragment aborts with a named construct (broken tie). Proofs/RDGenEq.lean proves "
-    "Gen.f = model f for: addDt = applyTo, raddDt, rsubDt, neg, abs, addRd, subRd, addTd, mulInt, bool, eq, hashKey, "
+    "Gen.f = model f for: addDt = applyTo, raddDt, rsubDt, neg, abs, addRd, subRd, addTd, mulInt, mulDy = mulDyadic, divPow2, "
+    "normalized = normalizedInt (Proofs/RDScale.lean), bool, eq, hashKey, "
     "initDiff = diffN (out of fuel = NotImplemented), initKw = mk for EVERY keyword set (initKw_eq: yearday / nlyearday "
     "scan, integer / object weekday, the ValueError and IndexError branches); the `_gen` theorems of the Audit file restate the property theorems over the generated definitions",
     "STILL HAND-MODELLED, tied by sampling only: (a) the named primitives of Model/RDPy.lean = CPython behaviour "
@@ -20,10 +23,13 @@ TRUSTED = [
     "x + timedelta, x.weekday(), isinstance(x, datetime), datetime.fromordinal(d.toordinal()), <, > and - between "
     "date/datetime objects incl. the same-object / UTC rule, timedelta.days/.seconds/.microseconds, weekdays[i], "
     "attributes of a weekday object, `a or b`, truthiness of Optional values), exercised by rdgen.* on every run; "
-    "(b) __div__, normalized(), __repr__, the `weeks` property, float-valued fields (not translated). The hashed tuple is "
+    "(b) __repr__, the `weeks` property and its setter (hand model RDH.weeksOf / setWeeks, ops rd.weeks / rd.setweeks / rd.hist), "
+    "__div__ by anything but +-2^k, `*` by non-dyadic floats, float-valued FIELDS and normalized() of them (not translated; "
+    "the dyadic primitives RDPy.Dy / intMulDy / truncDy / recipPow2 are the exact reading of IEEE double arithmetic, valid while "
+    "|field*m| < 2**53: the correspondence stays inside that range). The hashed tuple is "
     "translated element by element in source order (hashList) and captured in the same order from the implementation",
     "the translator itself is validated on every run: every correspondence request to a hand-model op (rd.add, rd.rsub, "
-    "rd.mk, rd.expr, rd.bool, rd.hash, rd.eq, rd.diff, rd.diffn, rd.diffo) is repeated against the generated definition "
+    "rd.mk, rd.expr, rd.bool, rd.hash, rd.eq, rd.diff, rd.diffn, rd.diffo, rd.muldy, rd.divp2, rd.normalized) is repeated against the generated definition "
     "(rdgen.*) and compared with the implementation",
     "Generated/RDKernels.lean (Gen.fix, Gen.setMonths) is re-translated from relativedelta._fix/_set_months on every run; "
     "the normalisation theorems are stated about that translation; the translator is validated on every run by rd.fix / "
@@ -32,7 +38,10 @@ TRUSTED = [
     "the correspondence ops rd.mk / rd.expr (random expression trees) / rd.bool / rd.eq / rd.hash, and rd.add (applyTo, on the values and their weekday n re-spellings: what eq_applyTo rests on); the tuple passed to "
     "hash() is captured in-process (module-level name `hash` shadowed for the duration of the call) and compared with hashKey",
     "the ydayidx literal of __init__ is read from the working tree's AST and compared with the model's table (rd.ydayidx)",
-    "EXECUTABLE-ONLY, NOT PROVED: float-valued day/hour/... fields, `*` and `/` by a float and normalized() are checked only "
+    "PROVED since the dyadic extension (theorems gen_scale_eq_model, mulDyadic_spec, mulDyadic_exact, mulDyadic_int, "
+    "normalized_spec): on INTEGER-valued records `*` by any m/2^k (all integers, 0.5, 1.5, 0.25 ...), `/` by +-2^k and "
+    "normalized(). EXECUTABLE-ONLY, NOT PROVED: float-valued day/hour/... FIELDS, `*` and `/` by other floats (0.1, 1/3, / 3) "
+    "and normalized() of fractional fields are checked only "
     "by the oracle directly on the implementation (algebraic laws: integer-valued normal form, bounds, total preserved "
     "within 2 microseconds, exact agreement with int(field*f) recomputed in Python); no Lean theorem covers them",
     "why no Lean theorem for float scalars: in Lean 4.33 Float + - * / and Float.ofInt reduce in the kernel on literals, but the "
@@ -234,6 +243,34 @@ def correspondence(ctx):
         x = L.g_temporal(rng)
         reqs.append("rd.add %s %s" % (L.rd_wire(a), L.t_wire(x))); exp.append(L.run(lambda: x + a, L.t_show))
         ctx.count("corr_add")
+    # (7) exact scaling and normalized() on integer records (values AND raw, non-normalised records as attribute assignment
+    #     leaves them): d * (m / 2**k), (m / 2**k) * d, d / (+-2**k) as int and as float divisor, d.normalized()
+    n_sc = ctx.budget(3000, 30000)
+    for _ in range(n_sc):
+        d = rng.choice(values)
+        if not L.is_int_valued(d):
+            continue
+        if rng.random() < 0.35:
+            d = L.clone_record(d)
+            for k in rng.sample(L.REL, rng.randint(1, 3)):
+                setattr(d, k, L.g_rel(rng, 5000))
+        w = L.rd_wire(d)
+        big = max(abs(getattr(d, k)) for k in L.REL)
+        kk = rng.choice([0, 0, 1, 1, 2, 3, 5, 10])
+        m = rng.choice([1, -1, 3, -3, 5, 7, 10, 25, -100, rng.randint(-2000, 2000)])
+        if big * abs(m) < 2 ** 53:
+            f = m / float(2 ** kk) if kk or rng.random() < 0.5 else m
+            reqs.append("rd.muldy %s %d %d" % (w, m, kk))
+            exp.append(L.run(lambda: d * f if rng.random() < 0.7 else f * d, L.rd_wire))
+            ctx.count("corr_muldy" + ("_int" if kk == 0 else "_fractional"))
+        if big < 2 ** 53:
+            neg = rng.random() < 0.4
+            div = (-1 if neg else 1) * 2 ** kk
+            reqs.append("rd.divp2 %s %d %d" % (w, 1 if neg else 0, kk))
+            exp.append(L.run(lambda: d / (div if rng.random() < 0.5 else float(div)), L.rd_wire))
+            ctx.count("corr_divp2")
+            reqs.append("rd.normalized " + w); exp.append(L.run(lambda: d.normalized(), L.rd_wire))
+            ctx.count("corr_normalized")
     # (6) the history of one object: use -> mutate (weeks setter / attribute assignment) -> use; after EVERY step the model
     #     on the current record, rd.setweeks, rd.hist; and the source audit the model's "a use leaves the record alone" rests on
     history_audit(ctx)
@@ -328,6 +365,18 @@ def check_value(ctx, d, origin, case):
         ctx.violation("bool(d) = %s but no-field-set = %s: %r" % (bool(d), empty, d), case)
     if not (d == d):
         ctx.violation("d != d: %r" % (d,), case)
+    # normalized(): a value again, nothing but days..microseconds re-expressed; the identity on an integer-valued value
+    try:
+        nz = d.normalized()
+    except Exception as ex:
+        if max_field(d) < 2 ** 53:
+            ctx.violation("normalized() raised %s on %r" % (type(ex).__name__, d), case)
+        return
+    if any(getattr(nz, k) != getattr(d, k) for k in L.ABS + ["years", "months", "leapdays"]) or not (nz.weekday == d.weekday):
+        ctx.violation("normalized() changed years / months / leapdays / an absolute field / the weekday: %r -> %r" % (d, nz), case)
+    elif L.is_int_valued(d) and max_field(d) < 2 ** 53 and not (nz == d and hash(nz) == hash(d)
+                                                                and all(getattr(nz, k) == getattr(d, k) for k in L.REL)):
+        ctx.violation("normalized() of an integer-valued value is not the value itself: %r -> %r" % (d, nz), case)
 
 
 def oracle(ctx):
@@ -470,10 +519,20 @@ def oracle(ctx):
     nf = ctx.budget(8000, 60000)
     for _ in range(nf):
         kw = {}
-        for k, s in (("days", 400), ("hours", 60), ("minutes", 200), ("seconds", 5000), ("microseconds", 10 ** 6)):
+        for k, s in (("days", 400), ("hours", 60), ("minutes", 200), ("seconds", 5000), ("microseconds", 10 ** 6), ("weeks", 60)):
             r = rng.random()
+            if k == "weeks" and r > 0.25:
+                continue
             if r < 0.35:
-                kw[k] = rng.choice([0.5, 1.5, -1.5, 0.25, -0.75, 1e-3, round(rng.uniform(-s, s), rng.randint(0, 6))])
+                kw[k] = rng.choice([0.5, 1.5, -1.5, 0.25, -0.75, 1e-3, round(rng.uniform(-s, s), rng.randint(0, 6)),
+                                    # a half / quarter at EVERY unit on top of a signed integer part that carries
+                                    rng.randint(-s, s) + rng.choice([0.5, -0.5, 0.25, 0.75, 0.125]),
+                                    # large magnitudes with a fractional part (exactly representable)
+                                    rng.choice([1, -1]) * (rng.choice([10 ** 5, 10 ** 7, 10 ** 9]) + rng.randint(0, 999) + rng.choice([0.5, 0.25]))])
+                if k == "microseconds" and rng.random() < 0.5:
+                    # fractional MICROSECONDS (below the resolution of timedelta): halves, quarters, just under a carry
+                    kw[k] = rng.choice([0.5, -0.5, 1.5, 0.25, 999999.5, -999999.5, 999999.75, 1000000.5, 123456.75,
+                                        rng.randint(-3 * 10 ** 6, 3 * 10 ** 6) + rng.choice([0.5, 0.25, -0.75])])
             elif r < 0.6:
                 kw[k] = rng.randint(-s, s)
         if rng.random() < 0.3:
@@ -496,7 +555,13 @@ def oracle(ctx):
         if all(isinstance(v, int) for v in kw.values()) and not (nd == d):
             ctx.violation("normalized() of an integer-valued delta differs: %r -> %r" % (d, nd), case)
         # the value laws on the FLOAT-valued delta itself (not only on its normalized() form)
-        tin = sum(fractions.Fraction(v) * UNITS[k] for k, v in kw.items() if k in UNITS)
+        tin = sum(fractions.Fraction(v) * UNITS[k] for k, v in kw.items() if k in UNITS) \
+            + fractions.Fraction(kw.get("weeks", 0)) * 7 * UNITS["days"]
+        for k in kw:
+            if isinstance(kw[k], float) and kw[k] != int(kw[k]):
+                ctx.count("float_fractional_" + k)
+            if isinstance(kw[k], float) and abs(kw[k]) >= 10 ** 5:
+                ctx.count("float_large_" + k)
         if abs(total_us(d) - tin) > fractions.Fraction(1, 100) + abs(tin) / 10 ** 12:
             ctx.violation("float carry changed the total duration by more than 0.01 us: %r from %r" % (d, kw), case)
         check_value(ctx, d, "float constructor", case)
